@@ -9,6 +9,7 @@ pipeline, round-trip and JSON-emitter specifications (incl. failing ones) and
 executes every history with real strings, Paths, text and binary streams,
 file names and open files, watching every file handle yatiml opens."""
 import io
+import common
 import json
 import locale
 import os
@@ -276,8 +277,7 @@ def raw_text_differential(V, tier, rnd):
               'a: >\n  x\n\n   y\n', '- |2\n    x\n   \n', 'a: "x\n  \n  y"\n',
               "k: 'a\n\n   b'\n", '\n\n  \nx: 1\n']
     chunks = chunked(texts, NCPU * 2)
-    with multiprocessing.get_context('fork').Pool(NCPU) as pool:
-        parts = pool.map(_raw_chunk, chunks)
+    parts = common.fork_map(_raw_chunk, chunks)
     total = 0
     for bad, n in parts:
         total += n
@@ -339,8 +339,7 @@ def run(tier, replay=None):
         items.append((h, rnd.sample(lcases, 2), rnd.sample(dcases, 2),
                       rnd.sample(jcases, 2)))
     chunks = chunked(items, NCPU * 2)
-    with multiprocessing.get_context('fork').Pool(NCPU) as pool:
-        parts = pool.map(_chunk, chunks)
+    parts = common.fork_map(_chunk, chunks)
     k = 0
     for cs, part in zip(chunks, parts):
         for it, (errs, n) in zip(cs, part):
